@@ -61,7 +61,7 @@ T = {
          "Same accept/reject and equal value across from_str, from_slice, from_reader, byte-at-a-time reader, from_value and every spelling.",
          "serde_json is the JSON reader", "4/C17"),
  "C18": ("model_checking", "explicit-state BFS over filesystem operation histories building directory trees, real record_artifacts / in_toto_run vs an independent walker",
-         "Every tree up to the node bound x path lists x strip prefixes x algorithms is recorded by the real code in a private cwd and compared with the reference walk.",
+         "Every tree up to the node bound x path lists x strip prefixes x algorithms is recorded by the real code in a private cwd and compared with the reference walk; the byproducts of a step are compared byte for byte over the product of an alphabet of standard-output contents, standard-error contents and exit statuses.",
          "real filesystem (tmpfs); no dangling links, devices or permission errors", "4/C18"),
  "C19": ("exploration", "exhaustive enumeration of optional-member subsets per format, foreign-member injections and declared-type x predicate-format pairs",
          "Unique format recognition, canonical round trip, declared type = contained format, from_meta carries the link over unchanged.",
